@@ -93,6 +93,28 @@ func Hashable(o Object) bool {
 	return false
 }
 
+// HoldsFunction tells whether the value is or contains (array elements, map keys and values) a function:
+// a function value carries the environment it was created in, two calls must not hand out the same one.
+func HoldsFunction(o Object) bool {
+	switch v := Value(o).(type) {
+	case Function:
+		return true
+	case Array:
+		for _, el := range v.Elements() {
+			if HoldsFunction(el) {
+				return true
+			}
+		}
+	case Map:
+		for _, kv := range v.mapElements() {
+			if HoldsFunction(kv.Key) || HoldsFunction(kv.Value) {
+				return true
+			}
+		}
+	}
+	return false
+}
+
 func UnwrapHashable(o Object) any {
 	switch o.Type() {
 	case INTEGER, FLOAT, BOOLEAN, NIL, ERROR, STRING:
